@@ -147,7 +147,9 @@ class CuboidCells(Cells):
 
         self._nearby_cells = {}
         for cell in self._cells:
-            self._nearby_cells[cell] = set(nearby_cell for nearby_cell in self._yield_nearby_cells(cell))
+            # The nearby cells are stored as the keys of a dictionary. Its key view behaves like a set but its iteration
+            # order does not depend on memory addresses (which would make runs irreproducible after a resume).
+            self._nearby_cells[cell] = dict.fromkeys(self._yield_nearby_cells(cell))
 
     def _yield_nearby_cells(self, cell: Cell) -> Iterable[Cell]:
         """
@@ -232,7 +234,7 @@ class CuboidCells(Cells):
         Set[Cell]
             The set of nearby cells.
         """
-        return self._nearby_cells[cell]
+        return self._nearby_cells[cell].keys()
 
     def neighbor_cell(self, cell: Cell, direction: int, positive: bool) -> Optional[Cell]:
         """
